@@ -187,7 +187,11 @@ def make_post_unpack_alert(streamer: Streamer) -> Callable[..., Any]:
     alert_submessage_parser = _make_parser(streamer, the_struct)
 
     def post_unpack_alert(d: dict[str, Any], f: IO[bytes]) -> dict[str, Any]:
-        d1 = alert_submessage_parser(io.BytesIO(d["payload"]))
+        try:
+            d1 = alert_submessage_parser(io.BytesIO(d["payload"]))
+        except Exception:
+            # the payload is an opaque string; it need not be a serialized alert
+            d1 = None
         d["alert_info"] = d1
         return d
 
